@@ -9,6 +9,7 @@ import gen
 from common import Outcome, rng_for
 
 LEVEL = "proof"
+SHRINK_KEYS = ("stream",)
 EXPLANATION = ("Theorems: Hoeffding-test equivalence, two-sided extends one-sided, HDDM-A flip symmetry (Lean). This run evaluates "
                "the textbook tests non-incrementally on the real detectors, lock-steps one-/two-sided pairs, flip pairs and rise/drop blocks.")
 ASSUMPTIONS = ["comparisons within relative margin 1e-9 of a tie end the trace",
